@@ -127,6 +127,11 @@ def gen_queries(rng, d):
         if q["api"] == "features_of_type" and q["ft"] is None:
             q["ft"] = rng.choice(TYPES)
         qs.append(q)
+        if rng.random() < 0.5:
+            # the same window asked again the other way round (contained <-> overlapping), in the other limit form: the
+            # answer to a query does not depend on which queries were answered before it in this process
+            qs.append(dict(q, cw=not q["cw"], limform="string" if q["limform"] == "tuple" else "tuple"))
+            qs.append(dict(q))
     with_kids = [f["id"] for f in feats]
     for _ in range(8):
         s, e = interval()
